@@ -115,7 +115,11 @@ def client_requests(rng, ci, ident, version, shared, hist, hot=False):
             k = rng.choice((3, 4, 4, 4, 16, 7, 8, 5, 6, 10, 12, rng.randrange(17)))
         sh = rng.choice(shared) if not hot else shared[0]
         name = '%s-%d' % (tag, j)
-        if k == 0:
+        if k == 0 and rng.random() < 0.4:
+            # key pair generation: by far the longest operation - whatever the engine does while it runs
+            ops = [op_create_key_pair(E.CryptographicAlgorithm.RSA, 1024, pub=[rig.attr(A.NAME, name_value(name + '-pub'), 0)],
+                                      priv=[rig.attr(A.NAME, name_value(name + '-priv'), 0)])]
+        elif k == 0:
             ops = [op_create(names=[name], policy='open' if version < (2, 0) else None)]
         elif k == 1:
             ops = [op_register('sym', secret_sym(bytes([ci, j]) * 8), sym_attrs(length=128, masks=ALL_MASKS, names=[name],
@@ -449,6 +453,8 @@ def run_case(ctx, case):
             if r[0] > base_max and r[2] == 'SymmetricKey' and not any(
                     bytes([ci, j]) * 8 == r[3] for ci in range(4) for j in range(8)):
                 generated.add(r[0])
+            if r[0] > base_max and r[2] in ('PublicKey', 'PrivateKey'):
+                generated.add(r[0])       # halves of generated key pairs
         final = dump_for_compare(work, base_max, generated)
         want = {k: norm_response(ops[k]['resp'], base_max) for k in keys}
         session_level = set()
@@ -487,6 +493,8 @@ def run_case(ctx, case):
                 for r in rig.raw_dump(path).get('managed_objects', []):
                     if r[0] > base_max and r[2] == 'SymmetricKey' and not any(
                             bytes([ci, j]) * 8 == r[3] for ci in range(4) for j in range(8)):
+                        gen2.add(r[0])
+                    if r[0] > base_max and r[2] in ('PublicKey', 'PrivateKey'):
                         gen2.add(r[0])
                 if dump_for_compare(path, base_max, gen2) == final:
                     return order
